@@ -39,10 +39,163 @@ def run(ctx):
     a8(ctx, R)
 
 
+def rename_eval(ctx, R):
+    """Finite-domain evaluation of renamescript() on a server WITHOUT the RENAMESCRIPT capability: for three listings (refused;
+    no active script; an active script), every kind of (old, new) pair and every combination of server answers to the steps, the
+    operations the client performs (with their arguments) and its result are compared with the reference emulation: nothing is sent
+    unless old exists and new does not; copy; activate the copy when old was active; delete old only after that; True iff the
+    delete succeeded.  Returns a list of (rule, key, message, witness), or None when the interpreter cannot follow the code."""
+    cached = getattr(ctx, "_rename_eval", "unset")
+    if cached != "unset":
+        return cached
+    f = R.methods["renamescript"]
+    own = f.params[1:]
+    if len(own) < 2:
+        return None
+    selfp = f.params[0]
+    STEPS = {"getscript": "get", "putscript": "put", "setactive": "setactive", "deletescript": "delete"}
+
+    def reference(L, old, new, get, put, act, dele):
+        if L is None:
+            return False, []
+        active, scripts = L
+        if not (old == active or old in scripts):
+            return False, []
+        if new == active or new in scripts:
+            return False, []
+        ev = [("get", old)]
+        if get is None:
+            return False, ev
+        ev.append(("put", new, get))
+        if not put:
+            return False, ev
+        if active == old:
+            ev.append(("setactive", new))
+            if not act:
+                return False, ev
+        ev.append(("delete", old))
+        return bool(dele), ev
+
+    def run(L, old, new, get, put, act, dele):
+        answers = {"get": get, "put": put, "setactive": act, "delete": dele}
+
+        def oracle(interp, e, name, recv, args, kw, st):
+            if name and name.startswith("self."):
+                mn = name[5:]
+                if mn == "listscripts":
+                    return [(fd.Const(L if L is None else (L[0], list(L[1]))), None)]
+                if mn in STEPS:
+                    k = STEPS[mn]
+                    vals = tuple(a.v if isinstance(a, fd.Const) else "?" for a in args)
+                    return [(fd.Const(answers[k]), (k,) + vals)]
+                if mn == R.sender.name:
+                    return [(fd.Tup([fd.Const("NO"), fd.Unknown("d")]), ("native",))]
+                if mn in R.methods and R.methods[mn] is not f and not mn.startswith("__dprint") and mn != "_Client__dprint":
+                    g = R.methods[mn]
+                    if R.sender.name in R.graph.reach_from([mn]) and mn not in ("listscripts",):
+                        # a helper of the emulation (it reaches the sender through the steps): followed
+                        return fd.Inline(g)
+                    return fd.Inline(g)
+            return None
+        it = fd.Interp(f.node, R.cls.name, oracle, loop_unroll=6, max_depth=4, resolve=module_resolver(ctx.program, R.module))
+        env = {own[0]: fd.Const(old), own[1]: fd.Const(new)}
+        for cand in ("__capabilities", "_Client__capabilities", "capabilities"):
+            env["%s.%s" % (selfp, cand)] = fd.Const({})
+        paths = it.run(env)
+        if len(paths) != 1:
+            return None
+        p = paths[0]
+        ev = [x for x in p.events if x and x[0] in ("get", "put", "setactive", "delete", "native")]
+        if p.kind == "raise":
+            return ("raise:%s" % p.value, ev)
+        t = fd.truth(p.value)
+        if t is None:
+            return None
+        return (t, ev)
+    problems = []
+    cases = [(None, "a", "x"),
+             ((None, ["a", "b", "c"]), "a", "x"), ((None, ["a", "b", "c"]), "a", "b"), ((None, ["a", "b", "c"]), "z", "x"), ((None, ["a", "b", "c"]), "b", "b"),
+             (("a", ["b", "c"]), "a", "x"), (("a", ["b", "c"]), "b", "x"), (("a", ["b", "c"]), "z", "x"), (("a", ["b", "c"]), "b", "a"),
+             (("a", ["b", "c"]), "b", "c"), (("a", ["b", "c"]), "b", "b"), (("a", ["b", "c"]), "a", "a"), (("a", ["b", "c"]), "a", "c")]
+    n = 0
+    try:
+        for L, old, new in cases:
+            for get in (None, "", "keep;\n"):
+                for put in (True, False):
+                    for act in (True, False):
+                        for dele in (True, False):
+                            want = reference(L, old, new, get, put, act, dele)
+                            got = run(L, old, new, get, put, act, dele)
+                            if got is None:
+                                raise _Undecided()
+                            n += 1
+                            if got != want:
+                                gv, gev = got
+                                wv, wev = want
+                                # which discipline is broken
+                                rule, key = "R6", "result"
+                                names_g = [x[0] for x in gev]
+                                if L is None and gev:
+                                    rule, key = "R5", "listing-refused"
+                                elif "delete" in names_g and (("put", new, get) not in gev or not put or (L[0] == old and (("setactive", new) not in gev or not act))):
+                                    rule, key = "R1", "delete-without-copy"
+                                elif "put" in names_g and "put" not in [x[0] for x in wev]:
+                                    rule, key = ("R2", "overwrite") if wev == [] else ("R3", "content")
+                                elif [x for x in gev if x[0] == "put"] != [x for x in wev if x[0] == "put"]:
+                                    rule, key = "R3", "content"
+                                elif gev != wev:
+                                    rule, key = "R4", "operations"
+                                problems.append((rule, "%s:%r,%r->%r" % (key, L, old, new),
+                                                 "on a server listing %r, renamescript(%r, %r) with the answers getscript=%r putscript=%r setactive=%r "
+                                                 "deletescript=%r performs %r and gives %r; the emulation must perform %r and give %r"
+                                                 % (L, old, new, get, put, act, dele, gev, gv, wev, wv),
+                                                 "a script is lost, overwritten or reported renamed although it was not"))
+                                if len(problems) > 40:
+                                    raise StopIteration
+    except _Undecided:
+        problems = None
+    except StopIteration:
+        pass
+    except fd.TooManyPaths:
+        problems = None
+    except AnalysisError:
+        raise
+    except Exception:
+        problems = None
+    ctx._rename_eval = problems
+    ctx._rename_eval_n = n
+    return problems
+
+
+class _Undecided(Exception):
+    pass
+
+
 def rename_rules(ctx, R, only=None):
     f = R.methods.get("renamescript")
     if f is None:
         raise AnalysisError("R", "Client.renamescript not found")
+    ev_ = rename_eval(ctx, R)
+    if ev_ is not None:
+        for rid, txt in (("R1", "deletescript(old) only after the copy (and its activation when old was active) succeeded"),
+                         ("R2", "putscript(new, ...) only when new is neither the active script nor one of the others"),
+                         ("R3", "the uploaded content is the downloaded one, unmodified; None means failure, '' is a script"),
+                         ("R4", "the steps are called with old / new in their roles, nothing else is sent"),
+                         ("R5", "a refused listing ends the emulation"), ("R6", "True iff the delete succeeded")):
+            ctx.rule(rid, txt)
+        seen_ = set()
+        for rule, key, msg, wit in ev_:
+            k2 = (rule, key.split(":")[0])
+            if k2 in seen_:
+                continue
+            seen_.add(k2)
+            ctx.violation(rule, f, "model:%s" % key, msg, node=f.node, witness=wit)
+        for rid in ("R1", "R2", "R3", "R4", "R5", "R6"):
+            if not any(r_ == rid for r_, _, _, _ in ev_):
+                ctx.holds(rid, "emulated rename evaluated for 13 (listing, old, new) cases x 24 combinations of server answers (%d runs): "
+                               "operations and result equal the reference emulation" % getattr(ctx, "_rename_eval_n", 0))
+        _native_rule(ctx, R, f)
+        return
     outer = f
     STEPS = ("listscripts", "getscript", "putscript", "setactive", "deletescript")
     helper_call = None
@@ -350,3 +503,40 @@ def rename_rules(ctx, R, only=None):
                     if not all(cfg.guarded(n, cap(False)) for n in nodes_of(c)):
                         ctx.violation("R7", f, "emulation-with-native", "emulation step %s is reachable although the server supports RENAMESCRIPT"
                                       % opn, node=c)
+
+
+def _native_rule(ctx, R, f):
+    """R7 by evaluation: with the capability announced, exactly one RENAMESCRIPT (old, new) is sent, none of the emulation steps is
+    performed, and the result is the server's answer."""
+    ctx.rule("R7", "with the server capability present only the native RENAMESCRIPT is sent")
+    own = f.params[1:]
+    selfp = f.params[0]
+    for code, want in (("OK", True), ("NO", False)):
+        def oracle(interp, e, name, recv, args, kw, st, code=code):
+            if name and name.startswith("self."):
+                mn = name[5:]
+                if mn == R.sender.name:
+                    vals = tuple(a.v if isinstance(a, fd.Const) else "?" for a in args)
+                    return [(fd.Tup([fd.Const(code), fd.Unknown("d")]), ("native",) + vals)]
+                if mn in ("listscripts", "getscript", "putscript", "setactive", "deletescript"):
+                    return [(fd.Const(None), ("step", mn))]
+                if mn in R.methods and R.methods[mn] is not f:
+                    return fd.Inline(R.methods[mn])
+            return None
+        it = fd.Interp(f.node, R.cls.name, oracle, loop_unroll=4, max_depth=4, resolve=module_resolver(ctx.program, R.module))
+        env = {own[0]: fd.Const("old"), own[1]: fd.Const("new")}
+        for cand in ("__capabilities", "_Client__capabilities", "capabilities"):
+            env["%s.%s" % (selfp, cand)] = fd.Const({"VERSION": "1.0", "SIEVE": "fileinto"})
+        try:
+            paths = it.run(env)
+        except fd.TooManyPaths:
+            raise AnalysisError("R7", "path explosion on the native path")
+        if len(paths) != 1 or paths[0].kind != "return" or fd.truth(paths[0].value) is None:
+            raise AnalysisError("R7", "native rename path not evaluable")
+        ev = [x for x in paths[0].events if x and x[0] in ("native", "step")]
+        if ev == [("native", "RENAMESCRIPT", [b"old", b"new"])] and fd.truth(paths[0].value) is want:
+            ctx.holds("R7", "capability announced, server answers %s: one RENAMESCRIPT (old, new), result %s" % (code, want))
+        else:
+            ctx.violation("R7", f, "native-path:%s" % code, "with RENAMESCRIPT announced and answered %s, renamescript performs %r and returns %r; "
+                          "expected the single command RENAMESCRIPT \"old\" \"new\" and %r" % (code, ev, fd.truth(paths[0].value), want), node=f.node,
+                          witness="the rename is emulated (or sent with the wrong names) although the server supports it")
